@@ -1,4 +1,5 @@
 import logging
+import os
 from progressbar import progressbar
 from typing import Optional, Sequence
 from pathlib import Path
@@ -8,6 +9,10 @@ from dliswriter.utils.internal.types import file_name_type, number_type, bytes_t
 from dliswriter.logical_record.misc import StorageUnitLabel
 
 logger = logging.getLogger(__name__)
+
+# verification hook (flush-tap): active only when WELL_ID_DLISWRITER_VERIF=1 and a sink has been registered
+_VERIF_ON = os.environ.get('WELL_ID_DLISWRITER_VERIF') == '1'
+_VERIF_FLUSH_SINKS: list = []
 
 
 class ByteWriter:
@@ -55,6 +60,10 @@ class ByteWriter:
 
         self._append = True  # in the future calls, append bytes to the file
         self._total_size += (size or len(bts))
+
+        if _VERIF_ON and _VERIF_FLUSH_SINKS:
+            for _sink in _VERIF_FLUSH_SINKS:
+                _sink(self._filename, self._total_size)
 
 
 class BufferedOutput:
